@@ -18,7 +18,7 @@
   code; the result is the error CLASS (spec.MatrixError code / InternalServerError / other error) or
   the response.
 
-  Round 5 (the repairs 20b9d02..a344cd8 of /repo's handshake files):
+  Round 5 (the repairs 61f1e3e..b9ca993 of /repo's handshake files):
     * the answer of the user-ID querier is three-valued (`SenderAns`): an error, a user ID, or NEITHER — `(nil, nil)`, what
       the repository's own test queriers answer for an unknown sender.  HandleSendJoin / HandleInvite treat the last like an
       error (before the repair they dereferenced the nil user ID);
